@@ -272,6 +272,9 @@ func Render(decls []Decl, lay Layout) *Result {
 				extra = append(extra, "~pk")
 			}
 			set(r.line(d.Name + " <: " + TypeText(*d.Sh) + attribs(d.Tags, d.Attrs, extra...)))
+		case "inplace":
+			set(r.line(d.Name + " <:"))
+			r.open("type")
 		case "enumitem":
 			v := d.Val
 			if f, ok := v.(float64); ok {
